@@ -5,7 +5,10 @@ Correspondence: the Lean model `JF.Model.Cells` (binary64 reading) vs the real `
 `position_to_cell`, the generation order of `_yield_nearby_cells`, `neighbor_cell`, `relative_cell`, `translate`,
 `zero_cell`, and the error outcomes.
 Oracle (on the implementation only, integer arithmetic on identifiers + float comparisons on extents):
-tiling of [0, L) in every direction, `position_to_cell(p)` contains `p` for every p in the box, torus laws."""
+tiling of [0, L) in every direction, `position_to_cell(p)` contains `p` for every p in the box, torus laws.
+The oracle demands the property without exception.  The witnesses of the former finding F2 (top floats of the box on the
+3x5x7 unit grid; repaired in cuboid_cells.py by `_cell_identifier` and the bounded upper stepping) stay in the corpus as
+regression inputs: on a tree without the repair they fail with the signatures recorded in known_findings/C16.json."""
 import itertools, math
 
 from harness.drive import f2b, b2f
@@ -17,7 +20,8 @@ ASSUMPTIONS = [
     "box lengths are finite normal floats in [2^-200, 2^200], cells per side >= 1 (so that every cell holds many floats; "
     "L/n subnormal, zero or infinite is outside the explored domain)",
     "a position 'in the box' is a float vector with 0 <= p_d < L_d; p_d = L_d (accepted by the assertion of "
-    "position_to_cell) is only compared model-vs-implementation, not judged by the oracle",
+    "position_to_cell, mapped to the last cell) and p_d just outside [0, L_d] (AssertionError) are only compared "
+    "model-vs-implementation, not judged by the oracle",
     "'abut without gap or overlap' is read on the float line: max of cell i and min of cell i+1 are adjacent floats",
 ]
 TRUSTED = ["Lean native Float (+ - * / comparisons, toBits/ofBits are the hardware's IEEE-754 binary64 operations); "
@@ -182,6 +186,13 @@ def positions_for(rng, L, n, per_dir, npos):
         out = keep + rest[:max(0, npos - len(keep))]
     # all coordinates at the top of the box, random ones
     out.append(([nxt(L[d], -1) for d in range(dim)], ("top-1ulp",) * dim))
+    # not in the box (correspondence only): the system length itself, which the assertion admits, and just outside of it
+    for d in range(dim):
+        for q, k in ((L[d], "at-L"), (nxt(L[d], 1), "above-L"), (-5e-324, "below-0")):
+            pos = [rng.random() * L[e] if rng.random() < 0.5 else nxt(L[e], -1) for e in range(dim)]
+            pos[d] = q
+            out.append((pos, tuple(k if e == d else "other" for e in range(dim))))
+    out.append(([L[d] for d in range(dim)], ("at-L",) * dim))
     for _ in range(max(4, npos // 8)):
         pos = [rng.random() * L[d] for d in range(dim)]
         if all(pos[d] < L[d] for d in range(dim)):
@@ -284,6 +295,8 @@ def run_grid(ctx, lim, rng, grid, budget, extra_positions=()):
         add("p2c " + " ".join(f2b(x) for x in pos), err if err else show_cell(c), "p2c")
         in_box = all(0.0 <= pos[d] < L[d] for d in range(dim))
         if not in_box:
+            ctx.count("position:outside-box(correspondence only)")
+            ctx.cls(("p2c-outside", tuple(sorted(set(k for k in kinds if k != "other"))), err or "cell"))
             continue
         ctx.count("position:" + ("top" if any(k.startswith("top") for k in kinds) else
                                  "boundary" if any(k.startswith("cell") or k == "i*side" for k in kinds) else "other"))
@@ -426,10 +439,12 @@ def run(ctx):
     import jellyfysh.setting as setting
     rng = ctx.rng
     lim = Limiter(ctx)
-    ctx.rule = ("corpus (witness grid of the known finding, error grids, exhaustive small grids) then seeded random grids "
+    ctx.rule = ("corpus (witness grid and positions of the former finding F2 as regression inputs, error grids, exhaustive "
+                "small grids) then seeded random grids "
                 "(dimension 1-5, cubic/non-cubic lengths incl. non-dyadic and 2^±60, equal/unequal counts, 0-3 layers, "
                 "periodic or not, short cells_per_side); per grid every cell/nearby/neighbour (sampled on big grids), "
-                "cell pairs, and positions at every cell's min/max ± ulp, 0, L-1..3ulp, i*side, random. A case class is "
+                "cell pairs, and positions at every cell's min/max ± ulp, 0, L-1..3ulp, i*side, random (plus L, L+ulp, -tiny: "
+                "compared only). A case class is "
                 "(grid regime) x (position kind | relation kind | wrap regime)")
     total = 0
     budget = ctx.n(40, 160)
